@@ -202,3 +202,30 @@ fault("C16.revisit-heads-set", "C16", G, "for r_head_state in to_revisit:\n     
 fault("C16.dump-sorted", "C16", PS, "    for action in actions:\n        a = {}", "    for action in sorted(actions, key=lambda a: a.action):\n        a = {}", "R16.dump")
 fault("C16.accepted-set", "C16", G, "        self._accepted_heads = []\n", "        self._accepted_heads = set()\n", "R16.driver-order")
 benign("C16.b-sorted-follow", "C16", T, "                for terminal in follow_set:\n                    if terminal not in actions:", "                for terminal in sorted(follow_set, key=lambda t: t.fqn):\n                    if terminal not in actions:")
+
+# ---------------------------------------------------------------- C15
+fault("C15.errors-not-reset", "C15", P, "        self.errors = []\n        self.in_error_recovery = False\n", "        self.in_error_recovery = False\n", "R15.reinit")
+fault("C15.glr-for-shifter-not-reset", "C15", G, "        self._last_shifted_heads = []\n        self._for_shifter = []\n", "        self._last_shifted_heads = []\n", "R15.reinit")
+fault("C15.glr-accepted-not-reset", "C15", G, "        # Accepted (finished) heads\n        self._accepted_heads = []\n", "", "R15.reinit")
+fault("C15.flag-to-init", "C15", G, "        self.errors = []\n        self._in_error_reporting = False\n", "        self.errors = []\n", "R15.reinit")
+fault("C15.enter-no-per-symbol", "C15", G, "        self._active_heads_per_symbol = {}\n        for head in farthest_heads:", "        for head in farthest_heads:", "R15.reinit")
+fault("C15.no-restore", "C15", T, "    grammar.productions[0].rhs = _old_start_production_rhs\n", "", None)
+fault("C15.restore-conditional", "C15", T, "    grammar.productions[0].rhs = _old_start_production_rhs\n", "    if itemset_type is LR_1:\n        grammar.productions[0].rhs = _old_start_production_rhs\n", "R15.swap-restore")
+fault("C15.raise-between", "C15", T, "    state_queue = [s]\n    state_id = 1\n", "    state_queue = [s]\n    state_id = 1\n    if not grammar.productions[0].rhs:\n        raise GrammarError(location=None, message='empty')\n", "R15.swap-restore")
+fault("C15.inplace-swap", "C15", T, "    grammar.productions[0].rhs = ProductionRHS([start_prod_symbol, STOP])", "    grammar.productions[0].rhs[:] = ProductionRHS([start_prod_symbol, STOP])", None)
+fault("C15.cache-follow", "C15", T, "    if first_sets is None:\n        first_sets = first(grammar)\n\n    follow_sets = {}",
+      "    if first_sets is None:\n        first_sets = first(grammar)\n    if hasattr(grammar, '_follow_sets'):\n        return grammar._follow_sets\n\n    follow_sets = {}", None,
+      edits=[("    if first_sets is None:\n        first_sets = first(grammar)\n\n    follow_sets = {}",
+              "    if first_sets is None:\n        first_sets = first(grammar)\n    if hasattr(grammar, '_follow_sets'):\n        return grammar._follow_sets\n\n    follow_sets = {}"),
+             ("                            follow_sets[symbol].update(prod_follow)\n    return follow_sets", "                            follow_sets[symbol].update(prod_follow)\n    grammar._follow_sets = follow_sets\n    return follow_sets")])
+fault("C15.write-table-in-parse", "C15", P, "            act = actions[0]\n", "            act = actions[0]\n            cur_state.actions[head.token_ahead.symbol] = [act]\n", "R15.table-readonly")
+fault("C15.symbol-prior-write", "C15", P, "        tokens = []\n        last_prior = -1\n", "        tokens = []\n        last_prior = -1\n        for s_ in actions:\n            s_.prior = max(s_.prior, 0)\n", "R15.shared-writes")
+fault("C15.mutable-extra", "C15", P, "def parse(self, input_str, position=0, file_name=None, extra=None):", "def parse(self, input_str, position=0, file_name=None, extra={}):", "R15.defaults")
+fault("C15.register-symbol-in-parser", "C15", P, "        self.layout_parser = None\n", "        self.layout_parser = None\n        self.grammar.register_symbol(EMPTY)\n", "R15.shared-writes")
+benign("C15.b-prologue-helper", "C15", G,
+       "        self.errors = []\n        self._in_error_reporting = False\n        self._expected = set()\n        self._tokens_ahead = []\n        self._last_shifted_heads = []\n        self._for_shifter = []\n",
+       "        self._reset_error_state()\n",
+       edits=[("        self.errors = []\n        self._in_error_reporting = False\n        self._expected = set()\n        self._tokens_ahead = []\n        self._last_shifted_heads = []\n        self._for_shifter = []\n",
+               "        self._reset_error_state()\n"),
+              ("    def _find_lookaheads(self):\n", "    def _reset_error_state(self):\n        self.errors = []\n        self._in_error_reporting = False\n        self._expected = set()\n        self._tokens_ahead = []\n        self._last_shifted_heads = []\n        self._for_shifter = []\n\n    def _find_lookaheads(self):\n")])
+benign("C15.b-try-finally", "C15", T, "    grammar.productions[0].rhs = _old_start_production_rhs\n    table = LRTable(states, **kwargs)", "    grammar.productions[0].rhs = _old_start_production_rhs\n    table = LRTable(states, **kwargs)\n    assert grammar.productions[0].rhs is _old_start_production_rhs")
